@@ -31,3 +31,14 @@ check('C02', 'wiresim', 'fault_enumeration',
       'DESIGN.md 3.3')
 for _p in ('C02', 'C03'):
     PENDING.pop(_p, None)
+check('C19', 'wiresim', 'exploration',
+      'Bounded liveness on a virtual clock (sys.monitoring LINE events in repo code, exact and machine independent): '
+      'every library call made on seeded faulted datagrams and faulted record streams is held to steps <= 4000*len + '
+      '150000 and depth <= 150 (a hard step cap turns a runaway call into a violation instead of a hang); 51 scalable '
+      'shapes (many headers / list items / one huge value / no separator / separator runs / declared counts) are '
+      'measured at n..16n and the growth exponent at the two largest doublings must be <= 1.25; hostile length and '
+      'count fields are run under tracemalloc against peak <= 2048*len + 8 MiB. Sampling.',
+      'Trusted: LINE events as the step measure (work inside C calls and dependencies is not counted); the constants '
+      'are generous by design so that slower-but-linear code does not alarm.',
+      'deterministic simulation: virtual step clock + seeded faults + scaling series', 'DESIGN.md 3.4')
+PENDING.pop('C19', None)
